@@ -93,6 +93,8 @@ type (
 
 		info       ClientInfo
 		statusFlag int32
+		// superseded is set when a newer connection took this client id over.
+		superseded int32
 		writeCh    chan packets.ControlPacket
 		done       chan struct{}
 
@@ -290,10 +292,11 @@ func (c *Client) disconnected() bool {
 }
 
 func (c *Client) closeAndDelSession() {
-	if cur := c.broker.getClient(c.info.cid); cur != nil && cur != c {
+	if cur := c.broker.getClient(c.info.cid); atomic.LoadInt32(&c.superseded) == 1 || (cur != nil && cur != c) {
 		// Superseded by a newer connection with the same client id: the
 		// session, its subscriptions and the broker entry of that id belong
-		// to the new connection now.
+		// to the new connection now (or to whatever followed it, should this
+		// teardown come even later than the end of the new connection).
 		c.close()
 		return
 	}
